@@ -604,11 +604,16 @@ def oracle(case, events):
             if sid in before:
                 bad.append(('op %d: issued id %r equals a live id' % (n, sid), 'fresh_id_is_live'))
         # (2) contents seen by the handler
-        adopted = c is not None and sid == c and not any(h == 'g' for h in ev['hops'])
-        start_id = c if (c is not None and c in before and
-                         (sid == c or any(h == 'g' for h in ev['hops']))) else None
-        # the session the request started with: the presented id when it was adopted.  With a regenerate
+        regen = any(h == 'g' for h in ev['hops'])
+        # the session the request starts with: the presented id whenever the statement demands that its
+        # data be served (the reference holds it), or when the code visibly adopted it.  With a regenerate
         # in the handler the final id differs; adoption is then inferred from the store.
+        if c is not None and c in ref:
+            start_id = c
+        elif c is not None and c in before and (sid == c or regen):
+            start_id = c
+        else:
+            start_id = None
         if start_id is not None and start_id in ref:
             e = ref[start_id]
             if now < e['lo']:
